@@ -16,6 +16,7 @@ import (
 	"oss.terrastruct.com/d2/d2layouts/d2dagrelayout"
 	"oss.terrastruct.com/d2/d2layouts/d2elklayout"
 	"oss.terrastruct.com/d2/d2lib"
+	"oss.terrastruct.com/d2/d2plugin"
 	"oss.terrastruct.com/d2/d2renderers/d2svg"
 	"oss.terrastruct.com/d2/d2target"
 	"oss.terrastruct.com/d2/lib/textmeasure"
@@ -86,7 +87,39 @@ func (w *Worker) Compile(src string, engine string, ro *d2svg.RenderOpts) (d *d2
 	if out != "ok" {
 		return nil, nil, fmt.Errorf("%s", out)
 	}
-	return d, g, err
+	if err != nil {
+		return d, g, err
+	}
+	// the CLI refuses graphs that use features the layout engine does not support (container-to-descendant edges,
+	// container dimensions, … under dagre): d2cli.compile calls FeatureSupportCheck on the compiled graph. Do the same,
+	// for every board, so that only configurations a user can reach are observed.
+	var info *d2plugin.PluginInfo
+	if engine == "elk" {
+		info, err = d2plugin.ELKPlugin.Info(w.Ctx)
+	} else {
+		info, err = d2plugin.DagrePlugin.Info(w.Ctx)
+	}
+	if err != nil {
+		return nil, nil, err
+	}
+	var check func(b *d2graph.Graph) error
+	check = func(b *d2graph.Graph) error {
+		if err := d2plugin.FeatureSupportCheck(info, b); err != nil {
+			return err
+		}
+		for _, l := range [][]*d2graph.Graph{b.Layers, b.Scenarios, b.Steps} {
+			for _, sub := range l {
+				if err := check(sub); err != nil {
+					return err
+				}
+			}
+		}
+		return nil
+	}
+	if err := check(g); err != nil {
+		return nil, nil, fmt.Errorf("unsupported by %s: %v", engine, err)
+	}
+	return d, g, nil
 }
 
 // ---------------------------------------------------------------------------------------------------------------
@@ -100,6 +133,17 @@ type Gen struct {
 	MultiLine  bool // labels may contain \n
 	Special    bool // classes, tables, text/code shapes, grids, sequence diagrams
 	StylesProb int  // percent chance that a given style keyword is set on an element
+	// DescendantEdges allows connections between a container and its own descendants / container self loops (ELK only)
+	DescendantEdges bool
+}
+
+func isAncestor(a, b *Node) bool {
+	for p := b.Parent; p != nil; p = p.Parent {
+		if p == a {
+			return true
+		}
+	}
+	return false
 }
 
 var Shapes = []string{"rectangle", "square", "page", "parallelogram", "document", "cylinder", "queue", "package",
@@ -387,6 +431,9 @@ func (g *Gen) Program(nNodes, nEdges int) *Program {
 		for i := 0; i < nEdges; i++ {
 			a := p.Nodes[g.R.Intn(len(p.Nodes))]
 			b := p.Nodes[g.R.Intn(len(p.Nodes))]
+			if !g.DescendantEdges && (len(a.Kids) > 0 || len(b.Kids) > 0) && (a == b || isAncestor(a, b) || isAncestor(b, a)) {
+				continue // dagre refuses container self loops and container-to-descendant connections
+			}
 			e := &Edge{Src: a.Path(), Dst: b.Path(), Arrow: g.pick([]string{"->", "->", "->", "--", "<-", "<->"})}
 			if g.chance(55) {
 				l := g.word()
